@@ -15,6 +15,7 @@ import (
 	"encoding/json"
 	"errors"
 	"fmt"
+	"hash/crc32"
 	"math/rand"
 	"os"
 	"os/exec"
@@ -108,6 +109,7 @@ type LogEv struct {
 	Call  int      `json:"call,omitempty"`
 	W     int      `json:"w,omitempty"`
 	Bad   []string `json:"bad,omitempty"` // call: records whose content is not the change PostgreSQL sent at that position
+	PKs   []string `json:"pks,omitempty"` // call: the Kinesis partition key of every record
 	AtSec float64  `json:"t,omitempty"`
 }
 
@@ -480,7 +482,7 @@ func (f *fakeKinesis) PutRecords(in *kinesis.PutRecordsInput) (*kinesis.PutRecor
 	w.mu.Unlock()
 	var lsns []uint64
 	var keys []string
-	var badRecs []string
+	var badRecs, pks []string
 	for _, r := range in.Records {
 		l, k := recLsn(r.Data)
 		lsns = append(lsns, l)
@@ -488,8 +490,13 @@ func (f *fakeKinesis) PutRecords(in *kinesis.PutRecordsInput) (*kinesis.PutRecor
 		if b := recContent(w.c, r.Data); b != "" {
 			badRecs = append(badRecs, b)
 		}
+		pk := ""
+		if r.PartitionKey != nil {
+			pk = *r.PartitionKey
+		}
+		pks = append(pks, pk)
 	}
-	w.add(LogEv{K: "call", Call: call, W: f.worker, Lsns: lsns, Keys: keys, Bad: badRecs})
+	w.add(LogEv{K: "call", Call: call, W: f.worker, Lsns: lsns, Keys: keys, Bad: badRecs, PKs: pks})
 	if permanent {
 		if call == w.c.Fault.At {
 			w.add(LogEv{K: "fault"})
@@ -967,6 +974,50 @@ func monitor(c Case, r result) []core.Violation {
 			}
 		}
 		return false
+	}
+	// C06 at the sink: every PutRecords call is one batch; all its records carry one Kinesis partition key,
+	// which is the partition key the method assigns to each of those records (a function of the record
+	// alone); un-partitioned records are keyed by their own LSN
+	{
+		type chg struct{ table, xid string }
+		byLsn := map[uint64]chg{}
+		for _, t := range c.Txns {
+			for _, ch := range t.Changes {
+				byLsn[ch.Lsn] = chg{ch.Table, t.Xid}
+			}
+		}
+		buckets := c.Buckets
+		if buckets < 1 {
+			buckets = 1
+		}
+		reported := false
+		for _, e := range r.Log {
+			if e.K != "call" || reported || len(e.PKs) != len(e.Lsns) {
+				continue
+			}
+			for j, l := range e.Lsns {
+				ch, ok := byLsn[l]
+				if !ok {
+					continue
+				}
+				want := ""
+				switch c.Method {
+				case "none":
+					want = strconv.FormatUint(l, 10)
+				case "tablename":
+					want = ch.table
+				case "transaction":
+					want = ch.xid
+				case "transaction-bucket":
+					want = strconv.Itoa(int(crc32.ChecksumIEEE([]byte(ch.xid))) % buckets)
+				}
+				if e.PKs[j] != want {
+					add("C06", "kinesis-partition-key-not-the-records-own", fmt.Sprintf("call %d: the record at %d (table %s, transaction %s) carries Kinesis partition key %q; method %s with %d buckets gives %q", e.Call, l, ch.table, ch.xid, e.PKs[j], c.Method, buckets, want))
+					reported = true
+					break
+				}
+			}
+		}
 	}
 	acceptCount := map[uint64]int{}
 	for _, e := range r.Log {
